@@ -37,25 +37,30 @@ func hookYield(pos int) {
 
 // installHooks binds the simsync hooks to sim for the duration of a run.
 func installHooks(s *Sim) {
-	hookSim = s
+	setHookSim(s)
 	simsync.Deadlocks = 0
-	simsync.YieldFn = hookYield
-	nextID := 5000
-	simsync.GoFn = func(f func()) {
-		if !s.On {
-			go f()
-			return
-		}
-		nextID++
-		t := s.NewTask(nextID, "bg")
-		parent := s.Cur()
-		s.Go(t, f)
-		s.SetCur(parent)
+	simsync.SetHooks(hookYield, hookGo)
+}
+
+//go:norace
+func setHookSim(s *Sim) { hookSim = s }
+
+//go:norace
+func getHookSim() *Sim { return hookSim }
+
+func hookGo(f func()) {
+	s := getHookSim()
+	if s == nil || !s.isOn() {
+		go f()
+		return
 	}
+	t := s.NewTask(s.nextBg(), "bg")
+	parent := s.Cur()
+	s.Go(t, f)
+	s.SetCur(parent)
 }
 
 func removeHooks() {
-	hookSim = nil
-	simsync.YieldFn = nil
-	simsync.GoFn = nil
+	setHookSim(nil)
+	simsync.SetHooks(nil, nil)
 }
